@@ -13,6 +13,7 @@ import (
 
 type Env struct {
 	fv    *FV
+	params map[string]Val // function parameters (entry values); shadowed by the current value of the variable
 	vars  map[string]Val
 	st    *State
 	old   *State
@@ -39,10 +40,7 @@ func (fv *FV) specErr(format string, a ...interface{}) {
 
 // envFor builds the evaluation environment at the current point of st.
 func (fv *FV) envFor(st *State) *Env {
-	env := &Env{fv: fv, vars: map[string]Val{}, st: st, old: st.fr.entry, names: st.fr.names, fn: st.fr.fn}
-	for k, v := range st.fr.params {
-		env.vars[k] = v
-	}
+	env := &Env{fv: fv, vars: map[string]Val{}, params: st.fr.params, st: st, old: st.fr.entry, names: st.fr.names, fn: st.fr.fn}
 	return env
 }
 
@@ -66,6 +64,9 @@ func (fv *FV) lookupId(name string, env *Env) (Val, bool) {
 			}
 			return v, true
 		}
+	}
+	if v, ok := env.params[name]; ok {
+		return v, true
 	}
 	if s, ok := fv.u.db.GGlobal[name]; ok {
 		if g, ok := env.st.ghost[name]; ok {
@@ -531,6 +532,33 @@ func (fv *FV) evalCall(e *Expr, env *Env) Val {
 		return Val{T: fmt.Sprintf("(ityp %s)", arg(0).T), S: "Int"}
 	case "payload":
 		return Val{T: fmt.Sprintf("(ival %s)", arg(0).T), S: "Int"}
+	case "fnid":
+		return Val{T: fmt.Sprintf("(fn_of %s)", fv.asTermSpec(env, arg(0)).T), S: "Int"}
+	case "fnidOf":
+		// fnidOf("GEN.begin") / fnidOf("parquet.RepetitionRequired")
+		name := e.Args[0].Name
+		i := strings.Index(name, ".")
+		pkg, fname := name[:i], name[i+1:]
+		for _, p := range fv.prog.AllPackages() {
+			match := pkgAlias(p.Pkg) == pkg
+			if pkg == "GEN" {
+				match = fv.fn.Pkg != nil && p.Pkg == fv.fn.Pkg.Pkg || (fv.fn.Pkg == nil && fv.fn.Parent() != nil && fv.fn.Parent().Pkg != nil && p.Pkg == fv.fn.Parent().Pkg.Pkg)
+			}
+			if !match {
+				continue
+			}
+			if f := p.Func(fname); f != nil {
+				return fv.funcVal(f)
+			}
+		}
+		if pkg == "GEN" {
+			for _, f := range fv.eng.funcs["GEN::"+fname] {
+				if pkgPathOf(f) == pkgPathOf(fv.fn) {
+					return fv.funcVal(f)
+				}
+			}
+		}
+		fv.specErr("fnidOf: no function %q", name)
 	case "external":
 		// external(x): the dynamic type of x is none of the library's own implementors
 		x := arg(0)
@@ -643,6 +671,17 @@ func (fv *FV) evalCall(e *Expr, env *Env) Val {
 			t = fmt.Sprintf("(sref %s)", x.T)
 		}
 		return Val{T: fmt.Sprintf("(or (= %s 0) (> %s %s))", t, t, env.old.alloc), S: "Bool"}
+	case "sameOrFresh2":
+		// sameOrFresh2(s, t): s shares t's backing array, or its array was allocated since entry
+		x, y := arg(0), arg(1)
+		tx, ty := x.T, y.T
+		if x.S == "Slice" {
+			tx = fmt.Sprintf("(sref %s)", x.T)
+		}
+		if y.S == "Slice" {
+			ty = fmt.Sprintf("(sref %s)", y.T)
+		}
+		return Val{T: fmt.Sprintf("(or (= %s %s) (> %s %s))", tx, ty, tx, env.old.alloc), S: "Bool"}
 	case "sameOrFresh":
 		// sameOrFresh(s): backing array of s is the one it had at entry, or allocated since
 		x := arg(0)
